@@ -7,6 +7,9 @@ from props import cache_e2e, cacheunit
 
 
 def run(ses):
+    from pyvc import frame as _frame
+
+    _frame.purity_obligation(ses)
     cacheunit.obligations(ses, "C07")
     cacheunit.key_obligations(ses, "C07")
     cacheunit.cli_obligations(ses, "C07")
